@@ -8,6 +8,44 @@ use sea_query::extension::mysql::*;
 use sea_query::extension::postgres::*;
 use sea_query::*;
 
+thread_local! {
+    static PROBE: std::cell::Cell<u8> = std::cell::Cell::new(0);
+}
+/// Between two builder calls, part of the cases (PROBE set by `run`, choice salted with the case line) render the
+/// unfinished statement and throw the result away, or go on with a clone of the builder.  Rendering must not
+/// modify a statement and a clone is an independent equal value, so neither may show in the finished statement:
+/// the model knows nothing of it (round 9: a memoised condition that later additions did not invalidate).
+fn probe<T: QueryStatementWriter + Clone>(q: &mut T, c: &S) {
+    let mode = PROBE.with(|p| p.get());
+    if mode == 0 {
+        return;
+    }
+    let h = exprs::shash(c) >> 11;
+    match h % 5 {
+        0 | 1 => {
+            let inline = h % 5 == 0;
+            let qr: &T = q;
+            let _ = std::panic::catch_unwind(std::panic::AssertUnwindSafe(|| match (mode, inline) {
+                (1, true) => { qr.to_string(MysqlQueryBuilder); }
+                (1, false) => { qr.build(MysqlQueryBuilder); }
+                (2, true) => { qr.to_string(PostgresQueryBuilder); }
+                (2, false) => { qr.build(PostgresQueryBuilder); }
+                (_, true) => { qr.to_string(SqliteQueryBuilder); }
+                (_, false) => { qr.build(SqliteQueryBuilder); }
+            }));
+        }
+        2 => {
+            let c2 = q.clone();
+            *q = c2;
+        }
+        _ => {}
+    }
+}
+
+pub fn reset_probe() {
+    PROBE.with(|p| p.set(0));
+}
+
 fn hx(s: &S) -> String {
     unhexs(s.atom())
 }
@@ -449,6 +487,7 @@ pub fn select(s: &S) -> SelectStatement {
             }
             other => panic!("select clause {}", other),
         }
+        probe(&mut q, c);
     }
     // the builder is handed over by take() for part of the cases (what callers do at the end of a chain)
     if exprs::shash(s) % 3 == 0 {
@@ -607,6 +646,7 @@ pub fn insert(s: &S, log: &mut Vec<String>) -> InsertStatement {
             }
             other => panic!("insert clause {}", other),
         }
+        probe(&mut q, c);
     }
     q
 }
@@ -666,6 +706,7 @@ pub fn update(s: &S) -> UpdateStatement {
             }
             other => panic!("update clause {}", other),
         }
+        probe(&mut q, c);
     }
     q
 }
@@ -715,6 +756,7 @@ pub fn delete(s: &S) -> DeleteStatement {
             }
             other => panic!("delete clause {}", other),
         }
+        probe(&mut q, c);
     }
     q
 }
@@ -777,6 +819,8 @@ macro_rules! render {
 /// stmt <backend> <sexp>: `<inline-hex> <params-hex> <values> [| log]`
 pub fn run(b: B, s: &S) -> String {
     let mut log = vec![];
+    // one case in three renders / clones the unfinished builders on the way (see `probe`)
+    PROBE.with(|p| p.set(if exprs::shash(s) % 3 == 1 { match b { B::My => 1, B::Pg => 2, B::Sl => 3 } } else { 0 }));
     let out = match s.head() {
         "select" => render!(b, &select(s)),
         "insert" => {
